@@ -679,6 +679,23 @@ def rule_loop(ctx, R):
         ({"LT[PUSHCODE,POS]=1"}, {"LT[PUSHCODE,POS]=0"}),
     )
     R.check((exit_labels, stay_labels) in ok_forms, "execute:bound", "the loop is left exactly when the position is past the appended command (exit on %s, continue on %s)" % (sorted(exit_labels), sorted(stay_labels)), b.blocks[sb]["term"]["span"]["at"])
+    # ... and by nothing else: no other edge leaves the loop (an error of the step aside), and inside the loop nothing
+    # but the bound decides (a further test - "jumped to itself", "too many steps" - would stop a program that the
+    # language lets run on)
+    other_exits = []
+    other_tests = []
+    for x in sorted(loop):
+        t = b.blocks[x]["term"]
+        for s2 in cfg.succ[x]:
+            if s2 not in loop:
+                lab = ev.generic_edge(x, t, s2) if t["k"] == "switch" else None
+                if not (lab and "PUSHCODE" in lab and lab.startswith("LT[")):
+                    other_exits.append(t["span"]["at"])
+        if t["k"] == "switch":
+            labs = [ev.generic_edge(x, t, s2) for s2 in cfg.succ[x]]
+            if any(l and not ("PUSHCODE" in l and l.startswith("LT[")) for l in labs):
+                other_tests.append(([l[:50] for l in labs if l], t["span"]["at"]))
+    R.check(not other_exits and not other_tests, "execute:only_bound", "nothing but the position bound ends or steers the stepping loop (other exits %s, other tests %s)" % (other_exits, other_tests), b.blocks[sb]["term"]["span"]["at"])
     # starts at the appended command; position and state are written back from the step's result
     org = Origins(b, fb)
     inits = []
@@ -986,3 +1003,11 @@ def rule_streams(ctx, R):
 
 
 RULES.append(("C01.STREAMS", "the program's standard output / standard error are the process's: main and sub_main hand the two writers on in the right order", rule_streams))
+
+
+def _keepnl(ctx, R):
+    from . import p_c14
+    return dict((r[0], r[2]) for r in p_c14.RULES)["C14.KEEPNL"](ctx, R)
+
+
+RULES.append(("C01.READLINE", "what a program reads is what standard input holds: the line reader hands every line on unchanged, terminator included (shared with C14.KEEPNL)", _keepnl))
